@@ -7,6 +7,9 @@ BUILT = {
  "C01": ("engine-a", "exploration", "model-based stateful property testing (proptest), shadow map oracle",
          "Generated op histories against a shadow map of every handed-out range, checked after every step, over the full configuration space; shrinks to a minimal history. Exploration: finds violations, proves nothing about unexplored histories.",
          "verif hooks trusted (transparent atomics, raw free-list walk); lifetime-extended borrowed handles dropped before their arena value", "5/C01"),
+ "C02": ("engine-b", "exploration", "controlled-scheduler (baton) concurrency testing over the real sync::Arena with generated programs and schedules; shadow map + every-arena-write-misses-live-ranges oracle",
+         "2-4 real threads run the real lock-free code one atomic access at a time under a generated, shrinkable schedule (uniform, bursty, forced pre-emption inside the mark->unlink window) from generated free-list shapes; ranges checked at every return, every arena write event (atomic or zeroing) checked against all live ranges, bytes verified at release and at the end; forged node words as payloads.",
+         "interleavings at the granularity of the crate's atomic accesses; sequentially consistent executions only", "4, 5/C02"),
  "C03": ("engine-a", "exploration", "model-based stateful property testing (proptest), capacity/alignment predicates over a 38-type table",
          "Every successful allocation in generated histories is checked for the stated capacity, offset alignment and address alignment, including recycled segments, odd cursor residues and zero-size requests on full arenas.",
          "same as C01", "5/C03"),
@@ -19,6 +22,9 @@ BUILT = {
  "C06": ("engine-a", "fault_enumeration", "crash-point enumeration: memory() snapshot before every atomic access of every operation (verif hook), each reopened with map_mut and driven by a generated post-crash history",
          "One generated history is executed once while every atomic step is recorded as a crash point (copy of memory() = what a MAP_SHARED file holds at that instant). quick evaluates <= 32 points per history (all steps of one free-list operation + a sample), thorough all of them: reopen, cursor range, pre-crash live bytes, then a generated post-crash history with the pre-crash live ranges in the shadow map and a no-progress budget for termination.",
          "crash = page cache at that instant (the statement's model); Vec+unify memory() stands for the file bytes (equivalence checked by C16 and by the 10% file/anon share)", "5/C06"),
+ "C07": ("engine-b", "exploration", "controlled-scheduler concurrency testing with a no-progress (all threads stalled) detector as bounded safety surrogate for liveness",
+         "Same engine as C02 with threads that keep allocations forever or finish early; violation iff every unfinished thread has re-examined an unchanging state for more than L scheduling points (then no call can ever return). Starvation under an infinite fair schedule is out of reach and counted as inconclusive when a per-operation budget trips.",
+         "liveness is decided through a bounded safety surrogate; fair round-robin fallback schedule", "4.3, 5/C07"),
  "C08": ("engine-a", "exploration", "stateful property testing with dirty-fill owners, all-zero predicate at alloc_bytes return",
          "Every owner dirties its range; every alloc_bytes/alloc_bytes_owned return is checked byte-for-byte for zero across fresh, rewound, top-released, recycled and reopened space.",
          "same as C01", "5/C08"),
@@ -31,6 +37,9 @@ BUILT = {
  "C11": ("engine-a", "exploration", "differential testing: one generated history on sync::Arena and unsync::Arena, per-step observation tuples compared",
          "The same generated config and single-threaded history (whole trait surface incl. rewind/clear/set_minimum_segment_size/increase_discarded/discard_freelist) is run on both flavours; result kinds, ranges, counters and free-list snapshots must agree after every step; one-sided panics or oracle failures are violations.",
          "memory() bytes are not compared (not in the statement; see DESIGN.md section 9)", "5/C11"),
+ "C12": ("engine-b", "exploration", "controlled-scheduler concurrency testing with a FastTrack-style vector-clock race detector fed by the orderings the code passes to its atomics",
+         "Programs with cross-thread hand-over of recycled ranges, owned buffers sent between threads, arena clones dropped on other threads; happens-before is computed from the actual Ordering arguments reported by the hook; any unordered pair of accesses to a common byte with a non-atomic side is a violation.",
+         "judged on sequentially consistent interleavings; SeqCst treated as AcqRel", "4.4, 5/C12"),
  "C13": ("engine-a", "exploration", "stateful property testing, release-exactly-once predicates, drop counters, refs() model, unmount event counter",
          "Clone/alloc/to-owned/detach/drop in any order incl. original first, with a generated teardown order; per-drop state delta must equal exactly one dealloc of the buffer extent; Unmount event exactly once at the last holder.",
          "Unmount event at the top of Memory::unmount stands for the release of the backing store", "5/C13"),
@@ -92,6 +101,7 @@ def main():
             {"name": "reader-engine", "path": "/verif/harness/src/props/small.rs", "serves_properties": ["C15"], "kind_free_text": "micro-case property engine for the arena-level get_* readers"},
             {"name": "checksum-engine", "path": "/verif/harness/src/props/small.rs", "serves_properties": ["C19"], "kind_free_text": "micro-case property engine for Allocator::checksum"},
             {"name": "file-engine", "path": "/verif/harness/src/props/c09.rs", "serves_properties": ["C09"], "kind_free_text": "file mutator + read-only session engine on top of Engine A's file builder"},
+            {"name": "engine-b", "path": "/verif/harness/src/engb.rs", "serves_properties": ["C02", "C07", "C12"], "kind_free_text": "controlled scheduler: real threads, real sync::Arena, baton passed at every atomic access (verif hook) following a generated schedule; shadow map, stall detector, vector-clock race detector"},
             {"name": "engine-a", "path": "/verif/harness/src/enga.rs", "serves_properties": [p for p in ALL if p in BUILT and BUILT[p][0] == "engine-a"], "kind_free_text": "single-threaded model-based history interpreter driven by proptest strategies; shadow map + free-list snapshot oracles; worker processes under a supervisor"},
         ],
         "checks": checks,
